@@ -117,3 +117,36 @@ func ZZ_C18_Names() {
 	}
 	zz.Reach("end")
 }
+
+// ZZ_C18_ShellOptions: parallel dependencies run commands of tasks that share one
+// Taskfile-level set:/shopt: list (unsorted, with a duplicate): joining the option lists for
+// a command must not write to the shared list.
+func ZZ_C18_ShellOptions() {
+	probe := zzCmd{}
+	g := &zzGraph{Tasks: []zzTask{
+		{Name: "R", Deps: []string{"A", "B"}},
+		{Name: "A", Cmds: []zzCmd{probe}},
+		{Name: "B", Cmds: []zzCmd{probe}},
+	}}
+	tf := g.build(func(string) bool { return false })
+	switch zz.Choose("options_declared_at", 3) {
+	case 0:
+		tf.Set = []string{"pipefail", "errexit", "errexit"}
+		tf.Shopt = []string{"globstar"}
+	case 1: // on each task
+		for _, n := range []string{"A", "B"} {
+			t, _ := tf.Tasks.Get(n)
+			t.Set = []string{"pipefail", "errexit"}
+		}
+	case 2: // Taskfile and task level
+		tf.Set = []string{"pipefail", "errexit"}
+		t, _ := tf.Tasks.Get("A")
+		t.Set = []string{"nounset"}
+	}
+	_, _ = zzExec(g, tf, zzRunOpts{}, "R")
+	zz.Assert(len(tf.Set) == 0 || tf.Set[0] == "pipefail", "the-declared-option-list-is-not-rewritten")
+	if zz.Twin() {
+		zz.Assert(false, "twin")
+	}
+	zz.Reach("end")
+}
